@@ -130,6 +130,8 @@ def call(ex, name, args):
         if n == 0:
             return None
         od, offd = ex.access(args[0], n, 1, True)
+        if od.kind == 'global':
+            ex.global_store_log.add((od.name, False, ex.in_once > 0))
         os_, offs = ex.access(args[1], n, 1, False)
         data = [os_.data[offs + i] for i in range(n)]
         for i in range(n):
@@ -145,6 +147,8 @@ def call(ex, name, args):
         if n == 0:
             return None
         od, offd = ex.access(args[0], n, 1, True)
+        if od.kind == 'global':
+            ex.global_store_log.add((od.name, False, ex.in_once > 0))
         b = args[1]
         for i in range(n):
             od.data[offd + i] = b
@@ -222,6 +226,8 @@ def call(ex, name, args):
         return args[0]
     if name.startswith('llvm.is.constant'):
         return T.const(0, 1)
+    if name.startswith('llvm.threadlocal.address'):
+        return args[0]        # one thread is executed: a thread-local is an ordinary global (the object is marked thread_local by the loader)
     if name.startswith('llvm.ptrmask'):
         raise Unsupported(name)
     if name.startswith('llvm.trap') or name == 'llvm.ubsantrap' or name == 'llvm.debugtrap':
